@@ -776,7 +776,7 @@ class Event(Component):
         duration = self.DURATION
         if duration is not None and end is not None:
             raise InvalidCalendar("Only one of DTEND and DURATION may be in a VEVENT, not both.")
-        if isinstance(start, date) and not isinstance(start, datetime) and duration is not None and duration.seconds != 0:
+        if isinstance(start, date) and not isinstance(start, datetime) and duration is not None and (duration.seconds != 0 or duration.microseconds != 0):
             raise InvalidCalendar("When DTSTART is a date, DURATION must be of days or weeks.")
         if start is not None and end is not None and is_date(start) != is_date(end):
             raise InvalidCalendar("DTSTART and DTEND must be of the same type, either date or datetime.")
@@ -889,7 +889,7 @@ class Todo(Component):
         duration = self.DURATION
         if duration is not None and end is not None:
             raise InvalidCalendar("Only one of DUE and DURATION may be in a VTODO, not both.")
-        if isinstance(start, date) and not isinstance(start, datetime) and duration is not None and duration.seconds != 0:
+        if isinstance(start, date) and not isinstance(start, datetime) and duration is not None and (duration.seconds != 0 or duration.microseconds != 0):
             raise InvalidCalendar("When DTSTART is a date, DURATION must be of days or weeks.")
         if start is not None and end is not None and is_date(start) != is_date(end):
             raise InvalidCalendar("DTSTART and DUE must be of the same type, either date or datetime.")
